@@ -1,8 +1,169 @@
 package checks
 
-import "verifharness/core"
+import (
+	"context"
+	"fmt"
+	"time"
 
+	"github.com/bartossh/Computantis/src/accountant"
+	"github.com/bartossh/Computantis/src/gossip"
+	"github.com/bartossh/Computantis/src/protobufcompiled"
+	"github.com/bartossh/Computantis/src/spice"
+	"github.com/bartossh/Computantis/src/transformers"
+
+	"verifharness/core"
+	"verifharness/ledger"
+	"verifharness/svc"
+)
+
+// c05LedgerWorker: an amount that is not canonical (supplementary >= 10^18) is never accepted in to the ledger,
+// through any entry point.
 func c05LedgerWorker(w *core.WorkerCtx) {
-	// filled in once the ledger simulator exists
-	w.R.Note("ledger ingress part not built yet")
+	r := w.R
+	rng := core.Rand(w.Seed, "C05L", w.Batch)
+	e18 := ledger.E18
+	amounts := []spice.Melange{
+		{Currency: 0, SupplementaryCurrency: e18},
+		{Currency: 0, SupplementaryCurrency: e18 + 1},
+		{Currency: 1, SupplementaryCurrency: 2*e18 - 1},
+		{Currency: 0, SupplementaryCurrency: 1 << 63},
+		{Currency: 0, SupplementaryCurrency: ^uint64(0)},
+		{Currency: ^uint64(0), SupplementaryCurrency: e18},
+		{Currency: 3, SupplementaryCurrency: 5 * e18},
+	}
+	scan := func(world *ledger.World, n *ledger.Node, entry string, amt spice.Melange) {
+		s, err := ledger.TakeSnap(n.Book)
+		if err != nil {
+			return
+		}
+		bad := func(where string, v *accountant.Vertex) {
+			if v.Transaction.Spice.SupplementaryCurrency >= e18 {
+				world.Violate("C05", "non-canonical-amount-in-ledger/"+entry, fmt.Sprintf("a transaction with amount %s (supplementary >= 10^18) offered through %s is %s in the ledger of node %s", ledger.MelStr(v.Transaction.Spice), entry, where, n.Name))
+			}
+		}
+		for _, l := range s.Live {
+			bad("live", &l.V)
+		}
+		for _, v := range s.Stored {
+			bad("checkpointed", v)
+		}
+		for _, p := range s.Parked {
+			v := p.Vertex
+			bad("parked for replay", &v)
+		}
+		r.Eval(1)
+		r.Nontriv(fmt.Sprintf("ledger/%s/%d.%d", entry, amt.Currency%7, amt.SupplementaryCurrency%13))
+	}
+	for round := 0; round < w.Pick(2, 10); round++ {
+		desc := fmt.Sprintf("c05 ledger ingress of non-canonical amounts round=%d seed=%d", round, w.Seed)
+		world := ledger.NewWorld(rng, r, []string{"C05"}, 0, desc)
+		d, err := ledger.Setup(world, ledger.Profile{Nodes: 2, Users: 4, SupplyClass: 1, Delivery: "lockstep"})
+		if err != nil {
+			r.Inconc("setup failed: " + err.Error())
+			world.Close()
+			continue
+		}
+		_ = d
+		n0, n1 := world.Nodes[0], world.Nodes[1]
+		u := world.Users
+		f := world.NewTrx(u[0], u[1].Addr, spice.Melange{Currency: 1 << 40}, nil)
+		if fv, err := world.Propose(n0, &f, "fund"); err == nil {
+			world.Deliver(n1, &fv, "net")
+		}
+		for _, amt := range amounts {
+			// (1) local proposal
+			t := world.NewTrx(u[1], u[2].Addr, amt, nil)
+			_, err := world.Propose(n0, &t, "non-canonical amount")
+			if err == nil {
+				world.Logf("CreateLeaf accepted amount %s", ledger.MelStr(amt))
+			}
+			m := world.NewTrx(u[0], u[3].Addr, spice.Melange{}, []byte("confirm"))
+			world.Propose(n0, &m, "follow-up")
+			scan(world, n0, "CreateLeaf", amt)
+			// (2) gossip
+			t2 := world.NewTrx(u[1], u[2].Addr, amt, nil)
+			s := n1.Prev
+			var tip ledger.H
+			var wgt uint64
+			for h := range s.Leaves {
+				tip, wgt = h, s.Live[h].V.Weight
+			}
+			v := ledger.ForgeVertex(world.Sealers[0], t2, tip, tip, wgt+1, world.Now())
+			world.Deliver(n1, &v, "non-canonical amount")
+			m2 := world.NewTrx(u[0], u[3].Addr, spice.Melange{}, []byte("confirm"))
+			world.Propose(n1, &m2, "follow-up")
+			scan(world, n1, "AddLeaf", amt)
+			// (3) sync: a stream that contains such a vertex
+			src, _ := ledger.TakeSnap(n1.Book)
+			var stream []*accountant.Vertex
+			for _, l := range src.Live {
+				c := l.V
+				stream = append(stream, &c)
+			}
+			var stip ledger.H
+			var sw uint64
+			for h := range src.Leaves {
+				stip, sw = h, src.Live[h].V.Weight
+			}
+			t3 := world.NewTrx(u[1], u[2].Addr, amt, nil)
+			sv := ledger.ForgeVertex(world.Sealers[1], t3, stip, stip, sw+1, world.Now())
+			stream = append(stream, &sv)
+			ln, loaded, _ := world.AddLoadedNode("L", stream, false)
+			if ln != nil {
+				if loaded {
+					scan(world, ln, "LoadDag", amt)
+				} else {
+					r.Eval(1)
+					r.Nontriv("ledger/LoadDag/refused")
+				}
+				world.CloseNode(ln)
+			}
+		}
+		world.Close()
+	}
+	// (4) notary Propose and (5) GossipVrx on the service rig
+	rig, err := svc.New(4, 60, 2048)
+	if err != nil {
+		r.Inconc("cannot build the node: " + err.Error())
+		return
+	}
+	defer rig.Close()
+	ctx := context.Background()
+	ft := ledger.ForgeTrx(rig.Users[0], rig.Users[1].Addr, "fund", nil, spice.Melange{Currency: 1 << 30}, time.Now().Add(-time.Minute))
+	fp, _ := transformers.TrxToProtoTrx(ft)
+	rig.Notary.Propose(ctx, fp)
+	scanRig := func(entry string, amt spice.Melange) {
+		s, err := ledger.TakeSnap(rig.Book)
+		if err != nil {
+			return
+		}
+		for _, l := range s.Live {
+			if l.V.Transaction.Spice.SupplementaryCurrency >= e18 {
+				r.Violate("C05", "non-canonical-amount-in-ledger/"+entry, fmt.Sprintf("a transaction with amount %s offered through %s is in the node's ledger", ledger.MelStr(l.V.Transaction.Spice), entry), nil)
+			}
+		}
+		r.Eval(1)
+		r.Nontriv(fmt.Sprintf("ledger/%s/%d.%d", entry, amt.Currency%7, amt.SupplementaryCurrency%13))
+	}
+	for i, amt := range amounts {
+		t := ledger.ForgeTrx(rig.Users[1], rig.Users[2].Addr, fmt.Sprintf("nc %d", i), nil, amt, time.Now().Add(-time.Minute))
+		p := &protobufcompiled.Transaction{Subject: t.Subject, Data: nil, Hash: t.Hash[:], CreatedAt: uint64(t.CreatedAt.UnixNano()), ReceiverAddress: t.ReceiverAddress, IssuerAddress: t.IssuerAddress,
+			IssuerSignature: t.IssuerSignature, Spice: &protobufcompiled.Spice{Currency: amt.Currency, SupplementaryCurrency: amt.SupplementaryCurrency}}
+		rig.Notary.Propose(ctx, p)
+		ok := ledger.ForgeTrx(rig.Users[0], rig.Users[3].Addr, fmt.Sprintf("ok %d", i), []byte("c"), spice.Melange{}, time.Now().Add(-time.Minute))
+		okp, _ := transformers.TrxToProtoTrx(ok)
+		rig.Notary.Propose(ctx, okp)
+		scanRig("notary.Propose", amt)
+		s, _ := ledger.TakeSnap(rig.Book)
+		var tip ledger.H
+		var wgt uint64
+		for h := range s.Leaves {
+			tip, wgt = h, s.Live[h].V.Weight
+		}
+		t2 := ledger.ForgeTrx(rig.Users[1], rig.Users[2].Addr, fmt.Sprintf("ncg %d", i), nil, amt, time.Now().Add(-time.Minute))
+		v := ledger.ForgeVertex(rig.PeerAct[0], t2, tip, tip, wgt+1, time.Now().Add(-time.Second))
+		rig.Gossip.GossipVrx(ctx, &protobufcompiled.VrxMsgGossip{Vertex: gossip.VerifVertexToProtoVertex(&v)})
+		scanRig("gossip.GossipVrx", amt)
+	}
+	r.Count("c05_ledger_ingress_offers", len(amounts)*5)
 }
